@@ -604,7 +604,7 @@ func (d *DistKeyGenerator) ProcessResponses(bundles []*ResponseBundle) (
 		}
 	}()
 
-	if !d.c.FastSync && len(bundles) == 0 && d.canReceive && d.statuses.CompleteSuccess() {
+	if !d.c.FastSync && len(bundles) == 0 && d.canReceive && d.completeSuccess() {
 		// if we are not in fastsync, we expect only complaints
 		// if there is no complaints all is good
 		res, err = d.computeResult()
@@ -682,7 +682,7 @@ func (d *DistKeyGenerator) ProcessResponses(bundles []*ResponseBundle) (
 	// there is no complaint in the responses received and the status matrix
 	// is all filled with success that means we can finish the protocol -
 	// regardless of the mode chosen (fast sync or not).
-	if !foundComplaint && d.statuses.CompleteSuccess() {
+	if !foundComplaint && d.completeSuccess() {
 		d.c.Info("msg", "DKG successful")
 		d.state = FinishPhase
 		if d.canReceive {
@@ -756,6 +756,22 @@ func (d *DistKeyGenerator) ProcessResponses(bundles []*ResponseBundle) (
 // this method returns "nil,nil" if this node is a node only present in the old
 // group of the dkg: indeed a node leaving the group don't need to process
 // justifications, and can simply leave the protocol.
+// completeSuccess reports whether every dealer that is still in the running has
+// only successes. Rows of evicted dealers are ignored: computeResult discards them
+// anyway, and a complaint against an evicted dealer is never broadcast, so looking
+// at them makes honest nodes leave the protocol in different phases.
+func (d *DistKeyGenerator) completeSuccess() bool {
+	for _, n := range d.c.OldNodes {
+		if slices.Contains(d.evicted, n.Index) {
+			continue
+		}
+		if !d.statuses.AllTrue(n.Index) {
+			return false
+		}
+	}
+	return true
+}
+
 func (d *DistKeyGenerator) ProcessJustifications(bundles []*JustificationBundle) (*Result, error) {
 	if !d.canReceive {
 		// an old node leaving the group do not need to process justifications.
